@@ -115,6 +115,11 @@ def const_val(node, consts):
 
 
 def check(prog, rep):
+    n_rules, n_def = len(rep.rules), len(rep.deferred)
+    rep.guarded(rule_model_rendering, prog, rep)
+    render_modelled = len(rep.rules) > n_rules and len(rep.deferred) == n_def
+    if len(rep.deferred) > n_def:
+        rep.deferred.pop()
     rep.explanation = (
         "abstract interpretation of psize.Psize (congruence x interval domain for grid counts, a '>= molecule extent' "
         "tag domain for lengths), reachability formulas for the line parser's record guard, token positions tied to "
@@ -194,8 +199,9 @@ def check(prog, rep):
     dime_ok = "int(self.dime[0])" in U(el) and "int(self.dime[1])" in U(el) and "int(self.dime[2])" in U(el)
     ei = prog.func("inputgen.py", "Elec.__init__").node
     dime_src = [U(s.value) for s in iter_stmts(ei.body) if isinstance(s, ast.Assign) and U(s.targets[0]) == "self.dime"]
-    r1.add("dime-source", dime_ok and dime_src and dime_src[0] == "size.ngrid",
-           f"'dime' prints int(self.dime[0..2]); self.dime <- {dime_src}", f"pdb2pqr/inputgen.py:{ei.lineno} (Elec)")
+    if not render_modelled:  # (decided by R8: the rendered 'dime' line is the grid of the sizing object for every method)
+        r1.add("dime-source", dime_ok and dime_src and dime_src[0] == "size.ngrid",
+               f"'dime' prints int(self.dime[0..2]); self.dime <- {dime_src}", f"pdb2pqr/inputgen.py:{ei.lineno} (Elec)")
 
     # ------------------------------------------------------------------ R2 / R3
     r2 = rep.rule("R2", "fine box is no larger than the coarse box", floor=1)
@@ -282,12 +288,8 @@ def check(prog, rep):
     opens = [c for c in calls_in(pp) if U(c.func) == "open"]
     r6.add("written-path", bool(opens) and U(opens[0].args[0]) == "args.output_pqr", "print_pqr opens args.output_pqr",
            f"pdb2pqr/main.py:{pp.lineno} (print_pqr)")
-    n_rules, n_def = len(rep.rules), len(rep.deferred)
-    rep.guarded(rule_model_rendering, prog, rep)
-    if len(rep.rules) > n_rules and len(rep.deferred) == n_def:
-        return  # dump_apbs and the renderer are decided on the model files; the shape obligations below are the fallback
-    if len(rep.deferred) > n_def:
-        rep.deferred.pop()
+    if render_modelled:
+        return  # dump_apbs and the renderer are decided on the model files (R8); the shape obligations below are the fallback
     da = prog.func("io.py", "dump_apbs").node
     p0 = da.args.args[0].arg
     icall = next((c for c in calls_in(da) if U(c.func) == "inputgen.Input"), None)
